@@ -198,15 +198,24 @@ impl SearchEntry {
                     None
                 })
                 .collect::<Vec<String>>();
+            // An attribute description may come in more than one element of the list;
+            // the values of all of them belong to the same attribute.
             if any_binary {
+                let earlier: Vec<String> = attr_vals.remove(&a_type).unwrap_or_default();
                 bin_attr_vals.get_mut(&a_type).expect("bin vector").extend(
-                    values
+                    earlier
                         .into_iter()
+                        .chain(values)
                         .map(String::into_bytes)
                         .collect::<Vec<Vec<u8>>>(),
                 );
+            } else if let Some(bin_vals) = bin_attr_vals.get_mut(&a_type) {
+                bin_vals.extend(values.into_iter().map(String::into_bytes));
             } else {
-                attr_vals.insert(a_type, values);
+                attr_vals
+                    .entry(a_type)
+                    .or_insert_with(Vec::new)
+                    .extend(values);
             }
         }
         SearchEntry {
